@@ -36,6 +36,21 @@ def _imp():
 
 
 # ====================================================================== recorder / tagging optimiser
+def owner_of(func, depth=0):
+    """the DependenceFunction behind what is handed to scipy (itself, or wrapped in a closure that holds some parameters fixed)"""
+    if hasattr(func, "dependent_parameters"):
+        return func
+    if depth < 3:
+        for c in getattr(func, "__closure__", None) or ():
+            try:
+                o = owner_of(c.cell_contents, depth + 1) if callable(c.cell_contents) else None
+            except ValueError:
+                o = None
+            if o is not None:
+                return o
+    return None
+
+
 class Rec:
     """Rebinds virocon._fitting.curve_fit / minimize from outside; restores them on exit."""
 
@@ -76,7 +91,9 @@ class Rec:
     def _call(self, engine, func, x, y, p0, kw, err=None):
         if engine == "minimize":
             x, y = err._c14_xy
-        env = [tuple(float(v) for v in dep.parameters.values()) for dep in func.dependent_parameters.values()]
+        handed = func
+        func = owner_of(func) or func
+        env = [tuple(float(v) for v in dep.parameters.values()) for dep in getattr(func, "dependent_parameters", {}).values()]
         c = {"func": func, "y": y, "p0": tuple(float(v) for v in p0), "engine": engine, "kw": dict(kw), "env": env,
              "x": x}
         self.calls.append(c)
@@ -93,7 +110,7 @@ class Rec:
             R.x = popt
             return R
         if engine == "curve_fit":
-            popt, pcov = self.orig[0](func, x, y, p0, **kw)
+            popt, pcov = self.orig[0](handed, x, y, p0, **kw)
             c["popt"] = tuple(float(v) for v in popt)
             return popt, pcov
         r = self.orig[1](err, p0, **kw)
@@ -145,7 +162,14 @@ BOUND_KINDS = [None, None, [(None, None), (None, None)], [(0, None), (None, None
                [(0.0, 1.5), (-3.0, 10.0)], [(-3.0, None), (None, 1.5)]]
 
 
-def build(DP, ctbl, rng=None, bounds=None, swap_kw=None):
+def node_weights(x, y):
+    return 1.0 + 0.2 * np.asarray(x, dtype=float)
+
+
+NODE_CONS = {"type": "ineq", "fun": lambda p: 1e3 - p[0]}       # inactive: routes the node through SLSQP
+
+
+def build(DP, ctbl, rng=None, bounds=None, swap_kw=None, extras=None):
     """constructs the DependenceFunction objects in creation order; kwargs order optionally swapped"""
     deps = []
     for j, cs in enumerate(ctbl):
@@ -157,7 +181,10 @@ def build(DP, ctbl, rng=None, bounds=None, swap_kw=None):
         for nm, c in pairs:
             kw[nm] = deps[c]
         b = bounds[j] if bounds else None
-        deps.append(DP.DependenceFunction(shape_for(len(cs)), bounds=b, **kw))
+        ex = extras[j] if extras else None
+        deps.append(DP.DependenceFunction(shape_for(len(cs)), bounds=b, weights=node_weights if ex == "weights" else None,
+                                          constraints=(NODE_CONS if ex == "cons" else [NODE_CONS]) if ex in ("cons", "conslist") else None,
+                                          latex="$a + b x$" if (j % 2) else None, **kw))
     return deps
 
 
@@ -188,7 +215,7 @@ def make_xy(case_seed, tag, j):
 
 def run_protocol(DP, F, case, mode):
     """runs the history on real objects; returns observables"""
-    deps = build(DP, case["ctbl"], bounds=case.get("bounds"), swap_kw=case.get("swap_kw"))
+    deps = build(DP, case["ctbl"], bounds=case.get("bounds"), swap_kw=case.get("swap_kw"), extras=case.get("extras"))
     conds = model_conds(deps)
     idx = {id(f): j for j, f in enumerate(deps)}
     ytag = {}
@@ -325,15 +352,17 @@ def dep_order_oracle(DP, obs, case):
     for (j, t), d in zip(case["ops"], obs["data"]):
         last[j] = d
     out = []
+    extras = case.get("extras") or [None] * n
+    ready = {}
+    for j in range(n):              # creation order is a topological order
+        ready[j] = j in last and (not conds[j] or any(ready[c] for c in conds[j]))
     for j in range(n):
-        need = set()
-        todo = [j]
-        while todo:
-            k = todo.pop()
-            if k not in need:
-                need.add(k)
-                todo += conds[k]
-        if not all(k in last for k in need):
+        if j not in last:
+            # C14_dataless_keeps_start: never handed data => still the start parameters
+            if [float(v) for v in deps[j].parameters.values()] != [1.0, 1.0]:
+                out.append(("stale", j, "was never given data but its parameters changed to %r" % [float(v) for v in deps[j].parameters.values()]))
+            continue
+        if not ready[j]:
             continue
         x, y = last[j]
         dp = deps[j].dependent_parameters
@@ -344,6 +373,9 @@ def dep_order_oracle(DP, obs, case):
         p = np.array([float(v) for v in deps[j].parameters.values()])
         b = case.get("bounds")
         bj = b[j] if b else None
+        if extras[j] == "weights":      # curve_fit(sigma=w): residuals are divided by w
+            w = 1.0 / node_weights(x, y)
+            A, y = A * w[:, None], np.asarray(y) * w
         s_now = float(np.sum((A @ p - y) ** 2))
         ref = np.linalg.lstsq(A, y, rcond=None)[0]
         ok_ref, _ = in_bounds(ref, bj, 0.0)
@@ -355,7 +387,8 @@ def dep_order_oracle(DP, obs, case):
             ref = lsq_linear(A, y, bounds=(lo, hi)).x
         s_ref = float(np.sum((A @ ref - y) ** 2))
         scale = float(np.sum(np.asarray(y) ** 2))
-        if s_now > s_ref * (1 + 1e-5) + 1e-9 * scale:
+        rel, ab = (1e-5, 1e-9) if extras[j] not in ("cons", "conslist") else (1e-3, 2e-6)      # SLSQP: ftol 1e-6 absolute
+        if s_now > s_ref * (1 + rel) + ab * max(1.0, scale):
             out.append(("stale", j, "residual %.6g against the final conditioners, %.6g attainable (params %r, lsq %r)"
                         % (s_now, s_ref, [float(v) for v in p], [float(v) for v in ref])))
         else:
@@ -425,7 +458,7 @@ def gen_single(rng, virocon, k):
     else:
         c["shape"] = ("random", rng.choice(sorted(RANDOM_SHAPES)))
     c["npts"] = rng.randrange(3, 21)
-    c["bounds_kind"] = rng.choice(["none", "allnone", "lower", "upper", "both", "active", "mixed"])
+    c["bounds_kind"] = rng.choice(["none", "allnone", "lower", "upper", "both", "active", "mixed", "zero", "zero_active", "equal"])
     c["cons_kind"] = rng.choice(["none", "none", "none", "dict_inactive", "dict_active", "list_inactive", "list_active", "list2"])
     c["weights"] = rng.random() < 0.3
     c["noise"] = rng.choice([0.0, 0.01, 0.03])
@@ -448,6 +481,8 @@ def realise_single(DP, virocon, c):
         func, ptrue, linear = RANDOM_SHAPES[name]
         bounds, weights, cons, dep = None, None, None, None
     npar = len(ptrue)
+    if kind == "random" and c["bounds_kind"] == "zero_active" and linear:
+        ptrue = (ptrue[0] + 6.0, -ptrue[1]) + tuple(ptrue[2:])      # the unconstrained optimum has a negative parameter 1
     x = np.sort(r.uniform(0.5, 12.0 if "Hs" in name or "OMAE_Hs" in name else 6.0, c["npts"]))
     y = np.asarray(func(x, *ptrue), dtype=float)
     y = y * (1 + c["noise"] * r.standard_normal(len(x)))
@@ -473,6 +508,12 @@ def realise_single(DP, virocon, c):
             lo = (pt[1] + start1) / 2 if pt[1] < start1 else None
             bounds = [(None, None)] * npar
             bounds[1] = (None if lo is None else float(lo), None if hi is None else float(hi))
+        elif bk in ("zero", "zero_active"):      # a bound AT zero on the side of the start value (predefined models: (0, None))
+            start = [(-1.0 if (name == "logistic4" and i == 2) else 1.0) for i in range(npar)]
+            bounds = [((0.0, None) if st > 0 else (None, 0.0)) for st in start]
+        elif bk == "equal":                      # lower == upper: the parameter is held at that value ("0 <= z <= 0" in the docstring)
+            bounds = [(None, None)] * npar
+            bounds[1] = (1.0, 1.0)
         else:
             bounds = [((None, None) if i % 2 else (float(min(v, 1.0) - 1.0), None)) for i, v in enumerate(pt)]
         if name == "logistic4" and bounds is not None:
@@ -506,12 +547,17 @@ def single_oracle(DP, F, virocon, c, want_calls=False):
             exc = "NotImplementedError"
         except (RuntimeError, TypeError, ValueError) as e:
             exc = type(e).__name__
+            exc_msg = str(e)
     calls = rec.calls
     expect_notimpl = R["cons"] is not None and R["weights"] is not None
     if exc == "NotImplementedError" or expect_notimpl:
         if (exc == "NotImplementedError") != expect_notimpl:
             return ("fail", {"clause": "dispatch", "site": "_fit"}, "NotImplementedError %s but constraints+weights %s" % (exc, expect_notimpl), calls)
         return ("unjudgeable", None, "constraints+weights: NotImplementedError (documented)", calls)
+    if exc == "ValueError" and "strictly less" in exc_msg and R["bounds"] is not None and any(lo is not None and lo == hi for lo, hi in R["bounds"]):
+        return ("fail", {"clause": "bounds", "site": "fit_function", "kind": "equal-bounds"},
+                "%s: bounds %r with lower == upper (a parameter held fixed, the docstring's own example `0 <= z <= 0`) make fit raise ValueError "
+                "on the curve_fit path instead of returning parameters inside the bounds" % (R["name"], R["bounds"]), calls)
     if exc is not None:
         return ("unjudgeable", None, "optimiser raised " + exc, calls)
     p = np.array([float(v) for v in dep.parameters.values()])
@@ -709,9 +755,164 @@ def run_chain(DP, F, ctbl, calls, seed, bounds=None):
     return case, obs
 
 
+# ---------------------------------------------------------------------- arguments that must not matter
+def irrelevance_check(ctx, DP, F, virocon, rng, n):
+    """the latex label, and whether x / y arrive as float ndarrays, python lists or tuples, cannot change the fit"""
+    bad = 0
+    for k in range(n):
+        c = gen_single(rng, virocon, 1)       # random shapes only
+        c["weights"] = False
+        R = realise_single(DP, virocon, c)
+        if R is None or R["cons"] is not None and R["weights"] is not None:
+            continue
+        res = []
+        for variant in ("plain", "latex", "lists", "tuples"):
+            dep = DP.DependenceFunction(R["func"], bounds=R["bounds"], constraints=R["cons"], weights=R["weights"],
+                                        latex="$a + b * x^{c}$" if variant == "latex" else None)
+            x, y = R["x"], R["y"]
+            if variant == "lists":
+                x, y = [float(v) for v in x], [float(v) for v in y]
+            if variant == "tuples":
+                x, y = tuple(float(v) for v in x), tuple(float(v) for v in y)
+            try:
+                dep.fit(x, y)
+                res.append(tuple(float(v) for v in dep.parameters.values()))
+            except NotImplementedError:
+                res.append("NotImplementedError")
+            except (RuntimeError, TypeError, ValueError) as e:
+                res.append(type(e).__name__)
+        ctx.count(("irrelevance", c["shape"], c["bounds_kind"], c["cons_kind"], c["npts"]), True)
+        if any(r != res[0] for r in res[1:]):
+            bad += 1
+            i = [r != res[0] for r in res].index(True)
+            ctx.violation({"clause": "irrelevant-argument", "site": "DependenceFunction.fit", "variant": ("plain", "latex", "sequence", "sequence")[i],
+                           "path": "slsqp" if R["cons"] is not None else "curve_fit"},
+                          "%s: fitting with %s gives %r instead of %r" % (R["name"], ("plain", "a latex label", "x, y as lists", "x, y as tuples")[i], res[i], res[0]),
+                          {"kind": "irrelevance", "case": c})
+    ctx.notes["irrelevant_arguments"] = {"configurations": n, "differences": bad}
+
+
+# ---------------------------------------------------------------------- the predefined chain through the whole model
+def synth_v_hs(n, seed):
+    r = np.random.default_rng([seed, 1414])
+    v = r.weibull(2.0, n) * 9
+    return np.c_[v, (0.4 + 0.03 * v ** 1.8) * r.weibull(2.0, n) + 0.05]
+
+
+def polish_gap(dep):
+    """relative improvement of the (weighted) squared residual that scipy still finds when started AT the fitted parameters
+    of `dep` with the CURRENT parameters of its conditioners (0 = the stored parameters are a fit against them)"""
+    from scipy.optimize import curve_fit
+    x, y = np.asarray(dep.x, dtype=float), np.asarray(dep.y, dtype=float)
+    p = np.array([float(v) for v in dep.parameters.values()])
+    sig = dep.weights(x, y) if dep.weights is not None else None
+    lo = [(-np.inf if b[0] is None else b[0]) for b in dep.bounds]
+    hi = [(np.inf if b[1] is None else b[1]) for b in dep.bounds]
+    q, _ = curve_fit(dep, x, y, p, sigma=sig, bounds=(lo, hi))
+    s0, s1 = ssr(dep, x, y, p, sig), ssr(dep, x, y, q, sig)
+    return (s0 - s1) / max(s0, 1e-300), s0
+
+
+def model_chain_check(ctx, virocon, rng, n):
+    """get_OMAE2020_V_Hs: alpha(x) uses the fitted beta(x) as a parameter and is declared (and handed its data) BEFORE beta.
+    Whole-model fit and re-fit, the `parameters` dict in both orders: alpha must be a fit against the FINAL beta, the
+    declaration order must not matter at all, and a re-fitted model must agree with a fresh model fitted to the second data."""
+    stat = {"judged": 0, "unjudgeable": 0, "max_polish_gap": 0.0, "max_refit_vs_fresh": 0.0}
+
+    def make(order):
+        dd, fd, _ = virocon.get_OMAE2020_V_Hs()
+        pars = dd[1]["parameters"]
+        dd[1]["parameters"] = {k: pars[k] for k in order}
+        return virocon.GlobalHierarchicalModel(dd), fd
+
+    def params(m):
+        return {k: [float(v) for v in f.parameters.values()] for k, f in m.distributions[1].conditional_parameters.items()}
+    for it in range(n):
+        seed = rng.randrange(1 << 30)
+        A, B = synth_v_hs(3000, seed), synth_v_hs(2500, seed + 1)
+        try:
+            m1, fd1 = make(["alpha", "beta"])
+            m2, fd2 = make(["beta", "alpha"])
+            m3, fd3 = make(["alpha", "beta"])
+            m1.fit(A, fd1)
+            m2.fit(A, fd2)
+            m1.fit(B, fd1)          # re-fit: alpha is first fitted against the OLD beta, then again after beta
+            m3.fit(B, fd3)
+        except RuntimeError:
+            stat["unjudgeable"] += 1
+            continue
+        ctx.count(("model-chain", seed), True)
+        stat["judged"] += 1
+        rep = {"kind": "model-chain", "seed": seed}
+        # declaration order: the same numbers, bit for bit (m2 saw only A; compare it with a model that saw only A)
+        m4, fd4 = make(["alpha", "beta"])
+        m4.fit(A, fd4)
+        if params(m4) != params(m2):
+            ctx.violation({"clause": "declaration-order", "site": "ConditionalDistribution.fit"},
+                          "get_OMAE2020_V_Hs fitted with parameters declared as (alpha, beta) gives %r, as (beta, alpha) %r" % (params(m4), params(m2)), rep)
+        for nm, m in (("re-fitted", m1), ("fresh", m3), ("fresh, other declaration order", m2)):
+            for pn, f in m.distributions[1].conditional_parameters.items():
+                try:
+                    gap, s0 = polish_gap(f)
+                except (RuntimeError, ValueError):
+                    continue
+                stat["max_polish_gap"] = max(stat["max_polish_gap"], gap)
+                if gap > 1e-4:
+                    ctx.violation({"clause": "dependency-order", "site": "GlobalHierarchicalModel.fit", "function": pn},
+                                  "get_OMAE2020_V_Hs (%s): dependence function of %s is not a fit against the final parameters of its conditioner: "
+                                  "scipy started at the stored parameters %r still lowers the residual %.6g by %.3g (relative)"
+                                  % (nm, pn, [float(v) for v in f.parameters.values()], s0, gap), rep)
+        # re-fit vs fresh (different start values): same residuals within optimiser tolerance
+        for pn in ("alpha", "beta"):
+            f1, f3 = m1.distributions[1].conditional_parameters[pn], m3.distributions[1].conditional_parameters[pn]
+            x, y = np.asarray(f3.x, dtype=float), np.asarray(f3.y, dtype=float)
+            sig = f3.weights(x, y) if f3.weights is not None else None
+            s1, s3 = ssr(f1, x, y, [float(v) for v in f1.parameters.values()], sig), ssr(f3, x, y, [float(v) for v in f3.parameters.values()], sig)
+            d = abs(s1 - s3) / max(s1, s3, 1e-300)
+            stat["max_refit_vs_fresh"] = max(stat["max_refit_vs_fresh"], d)
+            if d > 1e-3:
+                g1, g3 = polish_gap(f1)[0], polish_gap(f3)[0]
+                if max(g1, g3) > 1e-4:      # otherwise two local optima of a non-convex shape: optimiser, not protocol
+                    ctx.violation({"clause": "order-independence", "site": "GlobalHierarchicalModel.fit", "function": pn},
+                                  "get_OMAE2020_V_Hs: %s after fit(A); fit(B) has residual %.6g, a fresh model fitted to B %.6g" % (pn, s1, s3), rep)
+                else:
+                    stat["unjudgeable"] += 1
+    ctx.notes["predefined_chain_through_model"] = stat
+
+
 # ====================================================================== replay
 def replay(ctx, rp):
     virocon, F, DP = _imp()
+    if rp.get("kind") in ("irrelevance", "model-chain"):
+        import random
+
+        class C:
+            def __init__(s):
+                s.v, s.notes = [], {}
+
+            def count(s, *a, **k):
+                pass
+
+            def violation(s, sig, what, r):
+                s.v.append(what)
+        c = C()
+        if rp["kind"] == "model-chain":
+            class R1:
+                def randrange(s, n):
+                    return rp["seed"]
+            model_chain_check(c, virocon, R1(), 1)
+        else:
+            class R2(random.Random):
+                pass
+            orig = gen_single
+            globals()["gen_single"] = lambda rng, v, k: dict(rp["case"])
+            try:
+                irrelevance_check(c, DP, F, virocon, R2(0), 1)
+            finally:
+                globals()["gen_single"] = orig
+        for w in c.v[:3]:
+            print("  ", w)
+        return bool(c.v)
     if rp.get("kind") == "single":
         st, sig, msg, _ = single_oracle(DP, F, virocon, rp["case"])
         if st == "fail":
@@ -754,6 +955,8 @@ def run(ctx):
                 "swap_kw": [rng.random() < 0.3 for _ in range(n)], "mode": "tag" if i < n_tag else "real"}
         if case["mode"] == "real" and rng.random() < 0.5:
             case["bounds"] = [rng.choice(BOUND_KINDS) for _ in range(n)]
+        if rng.random() < 0.5:      # some nodes weighted (curve_fit sigma), some routed through SLSQP by a declared constraint
+            case["extras"] = [rng.choice([None, None, "weights", "cons", "conslist"]) for _ in range(n)]
         cases.append(case)
     lines, which = [], []
     stale_inputs = []
@@ -816,7 +1019,10 @@ def run(ctx):
         key = (c["shape"], c["npts"], c["bounds_kind"], c["cons_kind"], c["weights"], c["noise"])
         ctx.count(("single",) + key, st != "unjudgeable")
         R = realise_single(DP, virocon, c)
-        if R is not None and (calls or "NotImplementedError" in msg):
+        has_equal = R is not None and R["bounds"] is not None and any(lo is not None and lo == hi for lo, hi in R["bounds"])
+        if has_equal:
+            ctx.notes["dispatch_not_compared (equal bounds: parameters held fixed)"] = ctx.notes.get("dispatch_not_compared (equal bounds: parameters held fixed)", 0) + 1
+        if R is not None and not has_equal and (calls or "NotImplementedError" in msg):
             disp_lines.append(coq_dispatch_case(R, calls, "NotImplementedError" if "NotImplementedError" in msg else None))
             disp_cases.append(c)
         if st == "fail":
@@ -826,6 +1032,9 @@ def run(ctx):
             ctx.notes[k2] = ctx.notes.get(k2, 0) + 1
     ctx.notes["single_function_outcomes"] = stat
     ctx.sample({"single": singles[0]})
+
+    irrelevance_check(ctx, DP, F, virocon, rng, ctx.n(40, 400))
+    model_chain_check(ctx, virocon, rng, ctx.n(4, 30))
 
     # ---------------- evaluate the model (vm_compute), sharded
     def shard(name, ls):
@@ -892,7 +1101,8 @@ def run(ctx):
             break
     # 2. dependency order on suspects (real optimiser), then the stale cases seen in the stream
     for c in suspects_protocol[:40]:
-        case = {"ctbl": c["ctbl"], "ops": [tuple(o) for o in c["ops"]], "seed": c["seed"], "swap_kw": c.get("swap_kw")}
+        case = {"ctbl": c["ctbl"], "ops": [tuple(o) for o in c["ops"]], "seed": c["seed"], "swap_kw": c.get("swap_kw"),
+                "bounds": c.get("bounds"), "extras": c.get("extras")}
         obs = run_protocol(DP, F, case, "real")
         if obs["err"] is None:
             for o in dep_order_oracle(DP, obs, case):
@@ -908,7 +1118,8 @@ def run(ctx):
             ob = run_protocol(DP, F, cc, "real")
             return ob["err"] is None and any(r[0] == "stale" for r in dep_order_oracle(DP, ob, cc))
         ops = vlib.shrink_list(case["ops"], fails)
-        small = {"ctbl": case["ctbl"], "ops": ops, "seed": case["seed"], "swap_kw": case.get("swap_kw"), "bounds": case.get("bounds")}
+        small = {"ctbl": case["ctbl"], "ops": ops, "seed": case["seed"], "swap_kw": case.get("swap_kw"), "bounds": case.get("bounds"),
+                 "extras": case.get("extras")}
         ob = run_protocol(DP, F, small, "real")
         res = [r for r in dep_order_oracle(DP, ob, small) if r[0] == "stale"] or [o]
         if ctx.violation({"clause": "dependency-order", "site": "DependenceFunction.fit/callback"},
